@@ -35,6 +35,9 @@ def run(ctx):
         insts += relcheck.emit(ctx, RELS, PROCS={"NC", "CC"}, PROJS={"e-", "nu"}, KINDS={"F2", "F3"}, FLAVS={"total"},
                                SCHEMES={"ZM4"}, ORDERS={"33"}, TARGETS={"proton", "third"})
     relcheck.drive_and_validate(ctx, "C13", insts)
+    n3 = relcheck.emit(ctx, RELS, PROCS={"NC", "CC"}, PROJS={"e-", "nu"}, KINDS={"F2"} if q else {"F2", "FL", "F3"}, FLAVS={"total"},
+                       SCHEMES={"ZM5"}, ORDERS={"33"})
+    relcheck.drive_and_validate(ctx, "C13", n3, extra=dict(xs=[0.23]))
     if not q:
         tm = relcheck.emit(ctx, RELS, PROCS={"NC", "CC"}, PROJS={"e-", "nu"}, KINDS={"F2", "F3"}, FLAVS={"total"},
                            SCHEMES={"ZM5"}, ORDERS={"11"})
